@@ -59,6 +59,12 @@ Proof.
 Qed.
 Print Assumptions C09_hk_eq_faithful.
 
+(* the variant of the loop that also records the arguments of every union call (compared call by call with what a
+   spy on networkx's UnionFind observes) is the same loop *)
+Theorem C09_hk_trace_model : forall tie syms A B, fst (nfa_hk_eq_log tie syms A B) = nfa_hk_eq_gen tie syms A B.
+Proof. exact nfa_hk_eq_log_fst. Qed.
+Print Assumptions C09_hk_trace_model.
+
 Example C09_hk_example :
   let A := mknfa [0;1] [0] [(0,[(None,[1])]);(1,[(Some 0,[1])])] 0 [1] in     (* a* with an epsilon edge *)
   let B := mknfa [0] [0] [(0,[(Some 0,[0])])] 0 [0] in                         (* a* *)
